@@ -11,9 +11,13 @@ descriptions of the same inode (in one process or several: the kernel does not d
 `close` drops the lock held through that description; `remove` unlinks whatever inode the name
 points to, open descriptions of it stay usable.  One micro-step = one system call.
 
+Environment: a contender may be created with a pending transient failure of its next unlink of
+LOCK (vfs.FaultFS in the harness); Release may be called again after it returned.
+
 Configuration (facts re-extracted from the source):
-  releaseOrder     order of the effects in Release
-  acquireRechecks  Acquire compares the inode of its fd with the inode the path names after flock
+  releaseOrder          order of the effects in Release
+  acquireRechecks       Acquire compares the inode of its fd with the inode the path names after flock
+  releaseClearsOnError  Release sets `l.file = nil` also when it reports an error (a further Release is a no-op)
 -/
 import NoKVModel.Conc.Sys
 
@@ -29,11 +33,13 @@ inductive RelOrder where
 structure DLCfg where
   releaseOrder : RelOrder
   acquireRechecks : Bool
+  releaseClearsOnError : Bool := true   -- Release ends with `l.file = nil` whether or not it reports an error
   deriving DecidableEq, Repr
 
-def DLCfg.good : DLCfg := ⟨.removeUnlockClose, true⟩
+def DLCfg.good : DLCfg := ⟨.removeUnlockClose, true, true⟩
 
-def DLCfg.Good (c : DLCfg) : Prop := c.releaseOrder = .removeUnlockClose ∧ c.acquireRechecks = true
+def DLCfg.Good (c : DLCfg) : Prop :=
+  c.releaseOrder = .removeUnlockClose ∧ c.acquireRechecks = true ∧ c.releaseClearsOnError = true
 
 instance DLCfg.decGood (c : DLCfg) : Decidable c.Good := by unfold DLCfg.Good; exact inferInstance
 
@@ -53,12 +59,16 @@ inductive PC where
   | held                -- AcquireDirLock returned the lock; Release not started
   | rel (k : Nat)       -- inside Release, k+1 effects done
   | failed              -- AcquireDirLock returned an error (fd closed)
-  | done                -- Release returned
+  | done                -- Release returned (once or several times); Release may be called again
+  | rerel (k : Nat)     -- inside a repeated Release on a DirLock that kept its handle, k+1 effects done
   deriving DecidableEq, Repr
 
 structure Thr where
   pc : PC
   fd : Nat := 0
+  failUnlink : Bool := false   -- environment: the next remove(LOCK) of this contender fails once (transient I/O error)
+  err : Bool := false          -- the current / last Release has an error to report
+  handle : Bool := false       -- after Release returned: `l.file` is still set, a further Release runs the sequence again
   deriving DecidableEq, Repr
 
 structure St where
@@ -69,6 +79,7 @@ structure St where
 
 inductive Act where
   | spawn (tid : Nat)
+  | spawnF (tid : Nat)          -- a contender whose first unlink of LOCK will fail
   | run (tid : Nat)
 
 def applyEff (s : St) (tid : Nat) (t : Thr) : Eff → St
@@ -76,22 +87,44 @@ def applyEff (s : St) (tid : Nat) (t : Thr) : Eff → St
   | .close => if s.lockedBy t.fd = some tid then { s with lockedBy := upd s.lockedBy t.fd none } else s
   | .remove => { s with name := none }
 
-/-- execute effect number `e` of Release -/
+/-- execute effect number `e` of Release.  A failing unlink leaves the name in place and makes
+Release report an error; the flock is dropped and the descriptor closed all the same.  When
+Release returns, `l.file` is cleared — always (`releaseClearsOnError`), or only if there was no error. -/
 def relStep (c : DLCfg) (s : St) (tid : Nat) (t : Thr) (e : Nat) : Option St :=
   match (effects c.releaseOrder)[e]? with
   | none => none
   | some eff =>
-    let s1 := applyEff s tid t eff
-    let pc' := if e + 1 < (effects c.releaseOrder).length then PC.rel e else PC.done
-    some { s1 with thr := upd s1.thr tid (some { t with pc := pc' }) }
+    let failed : Bool := decide (eff = .remove) && t.failUnlink
+    let s1 := if failed then s else applyEff s tid t eff
+    let last : Bool := !decide (e + 1 < (effects c.releaseOrder).length)
+    let err' := t.err || failed
+    some { s1 with thr := upd s1.thr tid (some { t with
+      pc := if last then PC.done else PC.rel e,
+      failUnlink := if eff = .remove then false else t.failUnlink,
+      err := err',
+      handle := if last then (if c.releaseClearsOnError then false else err') else t.handle }) }
+
+/-- a repeated Release on a DirLock whose handle was kept: the unlink is real (it removes whatever
+file the path names now); flock(LOCK_UN) and close hit the already closed descriptor (EBADF, no effect) -/
+def rerelStep (c : DLCfg) (s : St) (tid : Nat) (t : Thr) (e : Nat) : Option St :=
+  match (effects c.releaseOrder)[e]? with
+  | none => none
+  | some eff =>
+    let failed : Bool := decide (eff = .remove) && t.failUnlink
+    let s1 := if eff = .remove ∧ failed = false then { s with name := none } else s
+    let last : Bool := !decide (e + 1 < (effects c.releaseOrder).length)
+    some { s1 with thr := upd s1.thr tid (some { t with
+      pc := if last then PC.done else PC.rerel e,
+      failUnlink := if eff = .remove then false else t.failUnlink,
+      err := true }) }
 
 def stepThr (c : DLCfg) (s : St) (tid : Nat) (t : Thr) : Option St :=
   match t.pc with
   | .open_ =>
     match s.name with
-    | some i => some { s with thr := upd s.thr tid (some { pc := .flock, fd := i }) }
+    | some i => some { s with thr := upd s.thr tid (some { t with pc := .flock, fd := i }) }
     | none => some { s with name := some s.nextIno, nextIno := s.nextIno + 1,
-                            thr := upd s.thr tid (some { pc := .flock, fd := s.nextIno }) }
+                            thr := upd s.thr tid (some { t with pc := .flock, fd := s.nextIno }) }
   | .flock =>
     match s.lockedBy t.fd with
     | none => some { s with lockedBy := upd s.lockedBy t.fd (some tid), thr := upd s.thr tid (some { t with pc := .recheck }) }
@@ -104,10 +137,15 @@ def stepThr (c : DLCfg) (s : St) (tid : Nat) (t : Thr) : Option St :=
   | .held => relStep c s tid t 0
   | .rel k => relStep c s tid t (k + 1)
   | .failed => none
-  | .done => none
+  | .done =>
+    -- Release is called again
+    if t.handle then rerelStep c s tid t 0 else some s      -- `l.file == nil`: returns at once
+  | .rerel k => rerelStep c s tid t (k + 1)
 
 def step (c : DLCfg) (s : St) : Act → Option St
   | .spawn tid => if s.thr tid = none then some { s with thr := upd s.thr tid (some { pc := .open_ }) } else none
+  | .spawnF tid =>
+    if s.thr tid = none then some { s with thr := upd s.thr tid (some { pc := .open_, failUnlink := true }) } else none
   | .run tid =>
     match s.thr tid with
     | some t => stepThr c s tid t
